@@ -273,7 +273,7 @@ def run(ctx):
             pols[cs_["self.histograms"]] = "sum(self.histograms)" in U(p_[-1][2].value)
     ctx.check(pols == {True: True, False: False}, "C05.d", "HistogramCollection.sum:empty-only", "the zero histogram is returned for an empty collection only",
               f"`sum(self.histograms)` returned per `self.histograms` decision: {pols}", csum.where)
-    ctx.check(any("sum(self.histograms)" in r for r in rets), "C05.d", "HistogramCollection.sum", "sum over all members",
+    ctx.check(any("sum(self.histograms)" in r for r in rets) and len(rets) == 2, "C05.d", "HistogramCollection.sum", "sum over all members",
               f"collection sum returns {rets}", sm.where)
     rd = m.func("compat.dask", "_run_dask")
     ctx.saw(rd)
